@@ -39,7 +39,7 @@ for p in props:
         na.append({"property_id": i, "reason": TODO.get(i, "check not built yet in this round (designed in DESIGN.md §5); not claimed until its explorer exists")})
 m = {
  "version": 1,
- "setup_cmd": "cd /verif/harness && CARGO_NET_OFFLINE=true cargo build --release --offline --workspace",
+ "setup_cmd": "cd /verif/harness && CARGO_NET_OFFLINE=true cargo build --release --offline " + " ".join("-p " + e for e in sorted(set(c[0] for c in CHECKS.values()))),
  "hooks": {"guard": "cwplus_verif", "enable": "none needed: all observation points are public entry points; the guard name is reserved and unused",
            "baseline_off_cmd": "cd /repo && cargo test --workspace --no-fail-fast --offline", "source_commits": [], "add_only": True},
  "engines": [
